@@ -375,7 +375,7 @@ func (e *Engine) pkgLevel(x *Exec, env *SpecEnv, name string) (Value, bool) {
 		obj := p.Types.Scope().Lookup(name)
 		switch o := obj.(type) {
 		case *types.Const:
-			v, ok := x.constTerm(o.Val(), o.Type())
+			v, ok := x.namedConstTerm(o)
 			return v, ok
 		case *types.Var:
 			return e.globalVar(x, env.st, o), true
